@@ -932,6 +932,60 @@ class Target(Referenceable):
         return x
 
 
+from zope.interface import implementer as _implementer
+from foolscap.api import RemoteInterface
+from foolscap.remoteinterface import RemoteInterfaceRegistry
+from foolscap.schema import ListOf, Any as _Any, DictOf, TupleOf
+
+try:
+    class RIC01(RemoteInterface):
+        def strict(a=int, b=_Any(), c=_Any()):
+            return None
+
+        def strict2(a=_Any(), b=ListOf(int), c=_Any()):
+            return None
+
+        def strictkw(x=_Any(), y=DictOf(int, int), z=_Any()):
+            return None
+
+        def ret_int(x=_Any()):
+            return int
+
+        def ret_list(x=_Any()):
+            return ListOf(int)
+
+        def echo2(x=_Any()):
+            return _Any()
+except Exception:      # registered twice (module reloaded)
+    RIC01 = RemoteInterfaceRegistry["RIC01"]
+
+
+@_implementer(RIC01)
+class StrictTarget(Referenceable):
+    """methods with argument / result schemas: a caller that does not know the interface sends anything, this side rejects"""
+
+    def __init__(self):
+        self.calls = []
+
+    def remote_strict(self, a, b, c):
+        self.calls.append(("strict", a, b, c))
+
+    def remote_strict2(self, a, b, c):
+        self.calls.append(("strict2", a, b, c))
+
+    def remote_strictkw(self, x, y, z):
+        self.calls.append(("strictkw", x, y, z))
+
+    def remote_ret_int(self, x):
+        return x                  # violates `return int` on the caller's side when x is not an int
+
+    def remote_ret_list(self, x):
+        return x
+
+    def remote_echo2(self, x):
+        return x
+
+
 class Pair:
     """two Brokers whose transports only accumulate; bytes are moved by the test, in chosen chunks"""
 
@@ -951,6 +1005,11 @@ class Pair:
         tr.send()
         self.clid = tr.clid
         self.rr = self.caller.getTrackerForYourReference(tr.clid, None).getRef()
+        self.strict = StrictTarget()
+        tr2 = self.callee.getTrackerForMyReference(self.strict.processUniqueID(), self.strict)
+        tr2.send()
+        self.rr_untyped = self.caller.getTrackerForYourReference(tr2.clid, None).getRef()       # no outbound checks
+        self.rr_typed = self.caller.getTrackerForYourReference(tr2.clid, "RIC01").getRef()      # checks results on arrival
         self.pos = {id(self.t_callee): 0, id(self.t_caller): 0}
 
     def pump(self, frm, to, rng=None, how="one"):
